@@ -54,7 +54,7 @@ open Grcov.Writers.CobBytes (isWs isName isNameByte)
 def attrErr : List Attr := [([], []), ([], [])]
 
 /-- `IterState::next` repeated over the bytes after the element name -/
-def splitAttrs : Nat → Bytes → List Attr
+def splitAttrs : Nat → List Nat → List Attr
   | 0, _ => attrErr
   | fuel + 1, bs =>
     match bs.dropWhile isWs with
@@ -77,16 +77,16 @@ def splitAttrs : Nat → Bytes → List Attr
       | _ => attrErr
 
 /-- `BytesStart::wrap(content, name_len(content))` + `attributes()` -/
-def nameOf (content : Bytes) : Name := content.takeWhile (fun b => !isWs b)
+def nameOf (content : List Nat) : Name := content.takeWhile (fun b => !isWs b)
 
-def attrsOf (content : Bytes) : List Attr :=
+def attrsOf (content : List Nat) : List Attr :=
   splitAttrs (content.length + 1) (content.dropWhile (fun b => !isWs b))
 
 /-! ## the scanners -/
 
 /-- `ElementParser::feed`: the bytes before the first `>` outside quotes, and what follows it;
 `q` = the quote we are inside (0 = outside) -/
-def scanTag : Nat → Bytes → Option (Bytes × Bytes)
+def scanTag : Nat → List Nat → Option (List Nat × List Nat)
   | _, [] => none
   | q, b :: r =>
     if q = 0 then
@@ -95,14 +95,14 @@ def scanTag : Nat → Bytes → Option (Bytes × Bytes)
     else (scanTag (if b = q then 0 else q) r).map fun p => (b :: p.1, p.2)
 
 /-- what follows the first occurrence of `pat` (with what precedes it) -/
-def splitAtSeq (pat : Bytes) : Bytes → Option (Bytes × Bytes)
+def splitAtSeq (pat : List Nat) : List Nat → Option (List Nat × List Nat)
   | [] => if pat.isEmpty then some ([], []) else none
   | b :: r =>
     if isPrefixOf' pat (b :: r) then some ([], (b :: r).drop pat.length)
     else (splitAtSeq pat r).map fun p => (b :: p.1, p.2)
 
 /-- DOCTYPE: up to the `>` that balances the `<` seen so far -/
-def scanDoctype : Nat → Bytes → Option (Bytes × Bytes)
+def scanDoctype : Nat → List Nat → Option (List Nat × List Nat)
   | _, [] => none
   | bal, b :: r =>
     if b = 62 then
@@ -111,11 +111,11 @@ def scanDoctype : Nat → Bytes → Option (Bytes × Bytes)
 
 def lower (b : Nat) : Nat := if 65 ≤ b ∧ b ≤ 90 then b + 32 else b
 
-def sDoctypeLower : Bytes := [100, 111, 99, 116, 121, 112, 101]   -- doctype
-def sCdataOpen : Bytes := [91, 67, 68, 65, 84, 65, 91]            -- [CDATA[
+def sDoctypeLower : List Nat := [100, 111, 99, 116, 121, 112, 101]   -- doctype
+def sCdataOpen : List Nat := [91, 67, 68, 65, 84, 65, 91]            -- [CDATA[
 
 /-- after `<!`: `some rest` when a comment / CDATA section / DOCTYPE was read, `none` on error -/
-def scanBang : Bytes → Option Bytes
+def scanBang : List Nat → Option (List Nat)
   | 45 :: r =>                                                     -- `-`
     (match r with
      | 45 :: r2 => (splitAtSeq [45, 45, 62] r2).map (·.2)
@@ -135,14 +135,17 @@ def scanBang : Bytes → Option Bytes
   | [] => none
 
 /-- after `<`, starting at the `?`: `PiParser` + `emit_question_mark` -/
-def scanPi (bs : Bytes) : Option Bytes :=
+def scanPi (bs : List Nat) : Option (List Nat) :=
   match splitAtSeq [63, 62] bs with
   | some (body, rest) => if body.isEmpty then none else some rest    -- `<?>` is an error
   | none => none
 
-def trimEnd (bs : Bytes) : Bytes := (bs.reverse.dropWhile isWs).reverse
+/-- `emit_end`: trailing white space removed – unless there is nothing else (`rposition` finds no
+non-blank byte: the content is kept as it is) -/
+def trimEnd (bs : List Nat) : List Nat :=
+  if bs.all isWs then bs else (bs.reverse.dropWhile isWs).reverse
 
-def stripBom : Bytes → Bytes
+def stripBom : List Nat → List Nat
   | 239 :: 187 :: 191 :: r => r
   | bs => bs
 
@@ -150,7 +153,7 @@ def stripBom : Bytes → Bytes
 
 /-- `read_event_into` repeated until `Eof` or the first `Err`; `stack` = names of the open
 elements, innermost first -/
-def tokLoop : Nat → Bytes → List Name → List XmlEvent
+def tokLoop : Nat → List Nat → List Name → List XmlEvent
   | 0, _, _ => [.bad]
   | _ + 1, [], _ => []
   | fuel + 1, b :: r, stack =>
@@ -159,45 +162,45 @@ def tokLoop : Nat → Bytes → List Name → List XmlEvent
     else
       match r with
       | [] => [.bad]                                           -- `UnclosedTag`
-      | 33 :: r1 =>
-        (match scanBang r1 with
-         | some rest => .other :: tokLoop fuel rest stack
-         | none => [.bad])
-      | 47 :: r1 =>
-        (match scanTag 0 r1 with
-         | some (content, rest) =>
-           let name := trimEnd content
-           (match stack with
-            | top :: st => if name = top then .end_ name :: tokLoop fuel rest st else [.bad]
-            | [] => [.bad])
-         | none => [.bad])
-      | 63 :: _ =>
-        (match scanPi r with
-         | some rest => .other :: tokLoop fuel rest stack
-         | none => [.bad])
-      | _ =>
-        (match scanTag 0 r with
-         | some (content, rest) =>
-           if content.getLast? = some 47 then
-             let c := content.dropLast
-             .empty (nameOf c) (attrsOf c) :: tokLoop fuel rest stack
-           else
-             .start (nameOf content) (attrsOf content) :: tokLoop fuel rest (nameOf content :: stack)
-         | none => [.bad])
+      | c :: r1 =>
+        if c = 33 then                                         -- `<!`
+          match scanBang r1 with
+          | some rest => .other :: tokLoop fuel rest stack
+          | none => [.bad]
+        else if c = 47 then                                    -- `</`
+          match scanTag 0 r1 with
+          | some (content, rest) =>
+            (match stack with
+             | top :: st =>
+               if trimEnd content = top then .end_ top :: tokLoop fuel rest st else [.bad]
+             | [] => [.bad])
+          | none => [.bad]
+        else if c = 63 then                                    -- `<?`
+          match scanPi (c :: r1) with
+          | some rest => .other :: tokLoop fuel rest stack
+          | none => [.bad]
+        else
+          match scanTag 0 (c :: r1) with
+          | some (content, rest) =>
+            if content.getLast? = some 47 then
+              .empty (nameOf content.dropLast) (attrsOf content.dropLast) :: tokLoop fuel rest stack
+            else
+              .start (nameOf content) (attrsOf content) :: tokLoop fuel rest (nameOf content :: stack)
+          | none => [.bad]
 
 /-- the events quick-xml's `Reader` yields on `bs` before `Eof` (`bad` last = it returned `Err`) -/
-def events (bs : Bytes) : List XmlEvent := tokLoop (bs.length + 1) (stripBom bs) []
+def events (bs : List Nat) : List XmlEvent := tokLoop (bs.length + 1) (stripBom bs) []
 
 /-- `Some` when the reader never returns `Err` -/
-def eventsOk (bs : Bytes) : Option (List XmlEvent) :=
+def eventsOk (bs : List Nat) : Option (List XmlEvent) :=
   let evs := events bs
   if evs.contains .bad then none else some evs
 
 /-- `parse_jacoco_xml_report` on the bytes of a report -/
-def parseBytesCap (cap : Nat) (bs : Bytes) : Outcome (List (Name × Cov)) :=
+def parseBytesCap (cap : Nat) (bs : List Nat) : Outcome (List (Name × Cov)) :=
   let evs := events bs
   parseCap cap evs (enoughFuel evs)
 
-def parseBytes (bs : Bytes) : Outcome (List (Name × Cov)) := parseBytesCap allocMax bs
+def parseBytes (bs : List Nat) : Outcome (List (Name × Cov)) := parseBytesCap allocMax bs
 
 end Grcov.Jacoco.Bytes
